@@ -6,6 +6,7 @@
 use vstd::prelude::*;
 verus! {
 //@INCLUDE prelude_object.rs
+//@INCLUDE opcodes.rs
 //@INCLUDE prelude_vm.rs
 //@INCLUDE vm_helpers_assumed.rs
 //@INCLUDE vm_callees_assumed.rs
@@ -35,7 +36,7 @@ impl VM {
         requires old(self).stack@.len() >= 2
         ensures
             //@VACUITY
-            binop_step(*old(self), *final(self), r, op_add()),
+            binop_step(*old(self), *final(self), r, generic_sem(OpCode::Add)),
     {
 //@ARM file=vm.rs fn=run impl=VM arm="OpCode::Add" rules="R1;R4"
         Ok(())
@@ -45,7 +46,7 @@ impl VM {
         requires old(self).stack@.len() >= 2
         ensures
             //@VACUITY
-            binop_step(*old(self), *final(self), r, op_sub()),
+            binop_step(*old(self), *final(self), r, generic_sem(OpCode::Subtract)),
     {
 //@ARM file=vm.rs fn=run impl=VM arm="OpCode::Subtract" rules="R1;R4"
         Ok(())
@@ -55,7 +56,7 @@ impl VM {
         requires old(self).stack@.len() >= 2
         ensures
             //@VACUITY
-            binop_step(*old(self), *final(self), r, op_div()),
+            binop_step(*old(self), *final(self), r, generic_sem(OpCode::Divide)),
     {
 //@ARM file=vm.rs fn=run impl=VM arm="OpCode::Divide" rules="R1;R4"
         Ok(())
@@ -65,7 +66,7 @@ impl VM {
         requires old(self).stack@.len() >= 2
         ensures
             //@VACUITY
-            binop_step(*old(self), *final(self), r, op_mul()),
+            binop_step(*old(self), *final(self), r, generic_sem(OpCode::Multiply)),
     {
 //@ARM file=vm.rs fn=run impl=VM arm="OpCode::Multiply" rules="R1;R4"
         Ok(())
@@ -75,7 +76,7 @@ impl VM {
         requires old(self).stack@.len() >= 2
         ensures
             //@VACUITY
-            binop_step(*old(self), *final(self), r, op_gt()),
+            binop_step(*old(self), *final(self), r, generic_sem(OpCode::Gt)),
     {
 //@ARM file=vm.rs fn=run impl=VM arm="OpCode::Gt" rules="R1;R4"
         Ok(())
@@ -85,7 +86,7 @@ impl VM {
         requires old(self).stack@.len() >= 2
         ensures
             //@VACUITY
-            binop_step(*old(self), *final(self), r, op_gte()),
+            binop_step(*old(self), *final(self), r, generic_sem(OpCode::Gte)),
     {
 //@ARM file=vm.rs fn=run impl=VM arm="OpCode::Gte" rules="R1;R4"
         Ok(())
@@ -95,7 +96,7 @@ impl VM {
         requires old(self).stack@.len() >= 2
         ensures
             //@VACUITY
-            binop_step(*old(self), *final(self), r, op_lt()),
+            binop_step(*old(self), *final(self), r, generic_sem(OpCode::Lt)),
     {
 //@ARM file=vm.rs fn=run impl=VM arm="OpCode::Lt" rules="R1;R4"
         Ok(())
@@ -105,7 +106,7 @@ impl VM {
         requires old(self).stack@.len() >= 2
         ensures
             //@VACUITY
-            binop_step(*old(self), *final(self), r, op_lte()),
+            binop_step(*old(self), *final(self), r, generic_sem(OpCode::Lte)),
     {
 //@ARM file=vm.rs fn=run impl=VM arm="OpCode::Lte" rules="R1;R4"
         Ok(())
@@ -115,7 +116,7 @@ impl VM {
         requires old(self).stack@.len() >= 2
         ensures
             //@VACUITY
-            binop_step(*old(self), *final(self), r, op_eq()),
+            binop_step(*old(self), *final(self), r, generic_sem(OpCode::Eq)),
     {
 //@ARM file=vm.rs fn=run impl=VM arm="OpCode::Eq" rules="R1;R4"
         Ok(())
@@ -125,7 +126,7 @@ impl VM {
         requires old(self).stack@.len() >= 2
         ensures
             //@VACUITY
-            binop_step(*old(self), *final(self), r, op_neq()),
+            binop_step(*old(self), *final(self), r, generic_sem(OpCode::Neq)),
     {
 //@ARM file=vm.rs fn=run impl=VM arm="OpCode::Neq" rules="R1;R4"
         Ok(())
@@ -135,7 +136,7 @@ impl VM {
         requires old(self).stack@.len() >= 2
         ensures
             //@VACUITY
-            binop_step(*old(self), *final(self), r, op_rem()),
+            binop_step(*old(self), *final(self), r, generic_sem(OpCode::Modulo)),
     {
 //@ARM file=vm.rs fn=run impl=VM arm="OpCode::Modulo" rules="R1;R4"
         Ok(())
@@ -145,7 +146,7 @@ impl VM {
         requires old(self).stack@.len() >= 2
         ensures
             //@VACUITY
-            binop_step(*old(self), *final(self), r, op_and()),
+            binop_step(*old(self), *final(self), r, generic_sem(OpCode::And)),
     {
 //@ARM file=vm.rs fn=run impl=VM arm="OpCode::And" rules="R1;R4"
         Ok(())
@@ -155,7 +156,7 @@ impl VM {
         requires old(self).stack@.len() >= 2
         ensures
             //@VACUITY
-            binop_step(*old(self), *final(self), r, op_or()),
+            binop_step(*old(self), *final(self), r, generic_sem(OpCode::Or)),
     {
 //@ARM file=vm.rs fn=run impl=VM arm="OpCode::Or" rules="R1;R4"
         Ok(())
@@ -168,7 +169,7 @@ impl VM {
             u16_at(old(self).instructions@, old(self).ip as int + 2) < constants@.len(),
         ensures
             //@VACUITY
-            fused_step(*old(self), *final(self), constants@, r, op_gt()),
+            fused_step(*old(self), *final(self), constants@, r, fused_sem(OpCode::GtLocalConst)),
     {
 //@ARM file=vm.rs fn=run impl=VM arm="OpCode::GtLocalConst" rules="R1;R4"
         Ok(())
@@ -181,7 +182,7 @@ impl VM {
             u16_at(old(self).instructions@, old(self).ip as int + 2) < constants@.len(),
         ensures
             //@VACUITY
-            fused_step(*old(self), *final(self), constants@, r, op_gte()),
+            fused_step(*old(self), *final(self), constants@, r, fused_sem(OpCode::GteLocalConst)),
     {
 //@ARM file=vm.rs fn=run impl=VM arm="OpCode::GteLocalConst" rules="R1;R4"
         Ok(())
@@ -194,7 +195,7 @@ impl VM {
             u16_at(old(self).instructions@, old(self).ip as int + 2) < constants@.len(),
         ensures
             //@VACUITY
-            fused_step(*old(self), *final(self), constants@, r, op_lt()),
+            fused_step(*old(self), *final(self), constants@, r, fused_sem(OpCode::LtLocalConst)),
     {
 //@ARM file=vm.rs fn=run impl=VM arm="OpCode::LtLocalConst" rules="R1;R4"
         Ok(())
@@ -207,7 +208,7 @@ impl VM {
             u16_at(old(self).instructions@, old(self).ip as int + 2) < constants@.len(),
         ensures
             //@VACUITY
-            fused_step(*old(self), *final(self), constants@, r, op_lte()),
+            fused_step(*old(self), *final(self), constants@, r, fused_sem(OpCode::LteLocalConst)),
     {
 //@ARM file=vm.rs fn=run impl=VM arm="OpCode::LteLocalConst" rules="R1;R4"
         Ok(())
@@ -220,7 +221,7 @@ impl VM {
             u16_at(old(self).instructions@, old(self).ip as int + 2) < constants@.len(),
         ensures
             //@VACUITY
-            fused_step(*old(self), *final(self), constants@, r, op_eq()),
+            fused_step(*old(self), *final(self), constants@, r, fused_sem(OpCode::EqLocalConst)),
     {
 //@ARM file=vm.rs fn=run impl=VM arm="OpCode::EqLocalConst" rules="R1;R4"
         Ok(())
@@ -233,7 +234,7 @@ impl VM {
             u16_at(old(self).instructions@, old(self).ip as int + 2) < constants@.len(),
         ensures
             //@VACUITY
-            fused_step(*old(self), *final(self), constants@, r, op_neq()),
+            fused_step(*old(self), *final(self), constants@, r, fused_sem(OpCode::NeqLocalConst)),
     {
 //@ARM file=vm.rs fn=run impl=VM arm="OpCode::NeqLocalConst" rules="R1;R4"
         Ok(())
@@ -246,7 +247,7 @@ impl VM {
             u16_at(old(self).instructions@, old(self).ip as int + 2) < constants@.len(),
         ensures
             //@VACUITY
-            fused_step(*old(self), *final(self), constants@, r, op_add()),
+            fused_step(*old(self), *final(self), constants@, r, fused_sem(OpCode::AddLocalConst)),
     {
 //@ARM file=vm.rs fn=run impl=VM arm="OpCode::AddLocalConst" rules="R1;R4"
         Ok(())
@@ -259,7 +260,7 @@ impl VM {
             u16_at(old(self).instructions@, old(self).ip as int + 2) < constants@.len(),
         ensures
             //@VACUITY
-            fused_step(*old(self), *final(self), constants@, r, op_sub()),
+            fused_step(*old(self), *final(self), constants@, r, fused_sem(OpCode::SubtractLocalConst)),
     {
 //@ARM file=vm.rs fn=run impl=VM arm="OpCode::SubtractLocalConst" rules="R1;R4"
         Ok(())
@@ -272,7 +273,7 @@ impl VM {
             u16_at(old(self).instructions@, old(self).ip as int + 2) < constants@.len(),
         ensures
             //@VACUITY
-            fused_step(*old(self), *final(self), constants@, r, op_mul()),
+            fused_step(*old(self), *final(self), constants@, r, fused_sem(OpCode::MultiplyLocalConst)),
     {
 //@ARM file=vm.rs fn=run impl=VM arm="OpCode::MultiplyLocalConst" rules="R1;R4"
         Ok(())
@@ -285,7 +286,7 @@ impl VM {
             u16_at(old(self).instructions@, old(self).ip as int + 2) < constants@.len(),
         ensures
             //@VACUITY
-            fused_step(*old(self), *final(self), constants@, r, op_div()),
+            fused_step(*old(self), *final(self), constants@, r, fused_sem(OpCode::DivideLocalConst)),
     {
 //@ARM file=vm.rs fn=run impl=VM arm="OpCode::DivideLocalConst" rules="R1;R4"
         Ok(())
@@ -298,7 +299,7 @@ impl VM {
             u16_at(old(self).instructions@, old(self).ip as int + 2) < constants@.len(),
         ensures
             //@VACUITY
-            fused_step(*old(self), *final(self), constants@, r, op_rem()),
+            fused_step(*old(self), *final(self), constants@, r, fused_sem(OpCode::ModuloLocalConst)),
     {
 //@ARM file=vm.rs fn=run impl=VM arm="OpCode::ModuloLocalConst" rules="R1;R4"
         Ok(())
